@@ -114,7 +114,8 @@ def finish(prop, tier, seed, units, results, wall, verbose=False, partial=False)
             lines.append('CHECKER-ERROR property=%s unit=%s case=%s mode=%s explored no feasible path (vacuous precondition?)'
                          % (prop, r['unit'], r['case'], r['mode']))
             exit_code = 3
-    write_evidence(prop, tier, seed, units, results, proof_recs, bounded_recs, violations, undecided, known_seen, wall, exit_code)
+    if not partial:
+        write_evidence(prop, tier, seed, units, results, proof_recs, bounded_recs, violations, undecided, known_seen, wall, exit_code)
     for ln in lines:
         print(ln)
     by_backend = {}
